@@ -26,7 +26,7 @@ func init() {
 		Rule: "byte streams of 0-40 records (record length 0..3x the internal buffer + 7, arbitrary bytes except the delimiter, optional unterminated tail) x " +
 			"partition into writes (byte at a time, many records per write, everything at once, random) x pauses in fake time x short reads x buffer-size knob {16,64,4096} x delimiter {\\n, 0x1e}; " +
 			"one run in nineteen is a long stream (150-250 records of 4-10 KB, more than a megabyte through one Ingest call, writes up to 64 KB); every record is compared inside the callback and again, as the string that was handed over, after Ingest returned; " +
-			"faults: end of stream, callback error at every record index i of the stream (enumerated within a group of runs), read error (EIO) at a random instant; " +
+			"in a sixth of the end-of-stream runs a second writer opens the FIFO 20-420 ms after the last one closed (its record belongs to the next call); faults: end of stream, callback error at every record index i of the stream (enumerated within a group of runs), read error (EIO) at a random instant; " +
 			"non-trivial = at least 2 records and (a record longer than the internal buffer or a write boundary inside a record or a fault fired); distinct = distinct (stream+partition hash, schedule hash)",
 		Quick: 12000, Thorough: 400000,
 	})
@@ -35,7 +35,7 @@ func init() {
 type c12Callback struct {
 	got         []string
 	kept        []string // the strings as handed over, looked at again only after Ingest returned
-	failAt      int // index at which the callback returns failErr (-1: never)
+	failAt      int      // index at which the callback returns failErr (-1: never)
 	failErr     error
 	calls       int
 	afterReturn int // callbacks after Ingest returned
@@ -206,6 +206,10 @@ func scnC12(mode string) scenarioFn {
 			cbk.returned = true
 			res.set(err)
 		})
+		secondWriter := mode == "eof" && !huge && t.Choose(6, "second.writer") == 5
+		if secondWriter {
+			rc.Sim.Count("pipe.second_writer_after_eof")
+		}
 		writerDone := false
 		rc.Sim.Spawn("world.writer", func() {
 			simrt.Point("world.open")
@@ -227,6 +231,14 @@ func scnC12(mode string) scenarioFn {
 			}
 			simrt.Point("world.close")
 			w.Close()
+			if secondWriter {
+				// the end of the stream is final for this call: a writer that shows up a moment
+				// later belongs to the next one
+				simrt.Sleep(time.Duration(20+rc.Sim.Tape.Choose(400, "second.writer.ms"))*time.Millisecond, "world.second-writer")
+				w2 := pipe.OpenWriter()
+				w2.Write(append([]byte("late-record"), delim))
+				w2.Close()
+			}
 			writerDone = true
 		})
 		_ = writerDone
